@@ -611,4 +611,64 @@ func cmdCheck(args []string) int {
 	return 0
 }
 
-func cmdSelftest(args []string) int { return 0 }
+// cmdSelftest: native validation of the harness reference renderers/decoders against the standard library
+// (go test with the harness files overlaid), and a smoke run of the engine on one harness.
+func cmdSelftest(args []string) int {
+	if err := writeGenerated(filepath.Join(verifDir, ".gen")); err != nil {
+		fmt.Fprintln(os.Stderr, err)
+		return 2
+	}
+	ov := map[string]string{}
+	for _, hd := range []string{filepath.Join(verifDir, "harness"), filepath.Join(verifDir, ".gen")} {
+		m, _ := harnessOverlayPaths(hd)
+		for virt, real := range m {
+			ov[virt] = real
+		}
+	}
+	tests, _ := filepath.Glob(filepath.Join(verifDir, "selftest", "*_test.go"))
+	pkgs := map[string]bool{}
+	for _, t := range tests {
+		base := filepath.Base(t)
+		dir := ""
+		switch {
+		case strings.HasPrefix(base, "fastlog_"):
+			dir = "fastlog"
+		}
+		ov[filepath.Join(repoDir, dir, "zz_verif_self_"+base)] = t
+		if dir == "" {
+			pkgs["."] = true
+		} else {
+			pkgs["./"+dir] = true
+		}
+	}
+	tmp, _ := os.MkdirTemp("", "gse-selftest")
+	defer os.RemoveAll(tmp)
+	ovb, _ := json.Marshal(map[string]interface{}{"Replace": ov})
+	ovFile := filepath.Join(tmp, "overlay.json")
+	os.WriteFile(ovFile, ovb, 0o644)
+	rc := 0
+	for p := range pkgs {
+		cmd := exec.Command("go", "test", "-count=1", "-vet=off", "-overlay", ovFile, "-run", "^TestVerifRef", p)
+		cmd.Dir = repoDir
+		cmd.Env = append(os.Environ(), "GOFLAGS=-mod=mod", "GOPROXY=off", "GOSUMDB=off", "GOTOOLCHAIN=local")
+		out, err := cmd.CombinedOutput()
+		fmt.Print(string(out))
+		if err != nil {
+			rc = 1
+		}
+	}
+	// engine smoke test
+	ld, err := Load(filepath.Join(verifDir, "harness"))
+	if err != nil {
+		fmt.Fprintln(os.Stderr, "load:", err)
+		return 2
+	}
+	r := runJob(ld, Job{Pkg: "root", Func: "VerifC15Base", Cfg: cfg(64, 60)})
+	if r.Err != "" || r.Paths != 1 || len(r.Findings) != 0 {
+		fmt.Println("engine smoke test failed:", r.Err, r.Paths, len(r.Findings))
+		rc = 1
+	} else {
+		fmt.Println("engine smoke test ok")
+	}
+	return rc
+}
